@@ -80,9 +80,15 @@ def counting(A, cnt, annotations):
 
 
 def case_cg(T, n, max_iters, variant=0, complex_=False, x0mode="none", tol="sym", cols="one", precond="none", via="function",
-            rhs_scale=True, rhs_phase=False):
+            rhs_scale=True, rhs_phase=False, real_rhs=False):
     dt = 'complex128' if complex_ else 'float64'
-    Q = K.basis(T, n, variant, complex_, dt)
+    if real_rhs:
+        # complex Hermitian positive-definite operator (phase-diagonal basis), right-hand side s e_1 handed over with a real dtype
+        from .c14 import phase_basis
+        assert complex_ and cols == "one" and precond == "none" and x0mode == "none"
+        Q = phase_basis(T, n, dt)
+    else:
+        Q = K.basis(T, n, variant, complex_, dt)
     alpha = [T.var(f"al{k}", positive=True) for k in range(n)]
     rho = [K.S(T, 1)] + [T.var(f"rho{k}", positive=True) for k in range(1, n)]
     s = T.var("s", positive=True) if rhs_scale else K.S(T, 1)
@@ -111,6 +117,8 @@ def case_cg(T, n, max_iters, variant=0, complex_=False, x0mode="none", tol="sym"
     Tm = K.mat(T, rows, dt)
     At = Q @ Tm @ np.conjugate(Q).T  # SPD in the (possibly preconditioned) coordinates
     bt = s * Q[:, 0]
+    if real_rhs:
+        bt = K.mat(T, [[s if i == 0 else K.S(T, 0) for i in range(n)]], 'float64')[0]
     if rhs_phase:
         # real operator, complex right-hand side (the default preconditioner and every intermediate must promote): b := s (3 + 4i)/5 q_0
         from fractions import Fraction as F_
@@ -246,6 +254,9 @@ def cases(tier, seed):
         if n >= 3:
             out.append((f"blocks-symtol:n{n}", case_cg, dict(n=n, max_iters=n, cols="blocks")))
             out.append((f"blocks:n{n}m1", case_cg, dict(n=n, max_iters=1, cols="blocks", tol=1e-6)))
+    for n, m in ((2, 1), (2, 2), (3, 3)):
+        out.append((f"complex-A-real-b:n{n}m{m}", case_cg, dict(n=n, max_iters=m, tol=1e-6, complex_=True, real_rhs=True)))
+        out.append((f"complex-A-real-b-inv:n{n}m{m}", case_cg, dict(n=n, max_iters=m, tol=1e-6, complex_=True, real_rhs=True, via="inv")))
     for n, m in ((2, 1), (2, 2), (3, 3)):
         out.append((f"real-A-complex-b:n{n}m{m}", case_cg, dict(n=n, max_iters=m, tol=1e-6, rhs_phase=True)))
         out.append((f"real-A-complex-b-inv:n{n}m{m}", case_cg, dict(n=n, max_iters=m, tol=1e-6, rhs_phase=True, via="inv")))
